@@ -54,6 +54,8 @@ class Sim:
         r = self.rng
         ops = ["counter-new", "pair-new", "vec-new", "bump"]
         if self.counters: ops += ["counter-call"] * 3
+        if len(self.counters) >= 2: ops += ["counter-assign"] * 2
+        if len(self.vecs) >= 2: ops += ["vec-assign"] * 3
         if self.pairs: ops += ["pair-inc", "pair-get"] * 2
         if self.vecs: ops += ["alias", "set", "ref", "poke", "poker-new", "reader-new", "list-new", "eqv", "nest", "set-via-ref"] * 2
         if self.lists: ops += ["list-ref", "list-set"] * 2
@@ -66,6 +68,16 @@ class Sim:
         elif op == "counter-call":
             n = r.choice(list(self.counters)); self.counters[n][0] += 1
             self.emit("(%s)" % n, "V i:%d" % self.counters[n][0])
+        elif op == "counter-assign":
+            # a variable re-bound to ANOTHER closure of the same lambda: afterwards both names are one counter
+            a, b = r.sample(list(self.counters), 2)
+            self.counters[a] = self.counters[b]
+            self.emit("(set! %s %s)" % (a, b), "V <void>")
+        elif op == "vec-assign":
+            # a variable re-bound to another vector (often with equal contents at this moment)
+            a, b = r.sample(list(self.vecs), 2)
+            self.vecs[a] = self.vecs[b]
+            self.emit("(set! %s %s)" % (a, b), "V <void>")
         elif op == "pair-new":
             n = self.fresh("p"); self.pairs[n] = [0]; self.emit("(define %s (mk-pair))" % n, "N")
         elif op == "pair-inc":
@@ -74,7 +86,9 @@ class Sim:
         elif op == "pair-get":
             n = r.choice(list(self.pairs)); self.emit("((cdr %s))" % n, "V i:%d" % self.pairs[n][0])
         elif op == "vec-new":
-            n = self.fresh("v"); items = [r.randrange(0, 9) for _ in range(r.randrange(1, 4))]
+            n = self.fresh("v")
+            # few distinct contents, so that different vectors are often structurally equal
+            items = [r.choice([0, 0, 1]) for _ in range(r.choice([1, 2, 2, 3]))]
             self.vecs[n] = list(items)
             form = r.choice(["(define %s (vector %s))" % (n, " ".join(map(str, items))),
                              "(define %s (make-vector %d %d))" % (n, len(items), items[0])])
